@@ -20,6 +20,8 @@ props.prop(
             'that broadcasts these messages; coupled update of the id-holding structures; guard-before-insert',
     not_decided='uniqueness of identifiers, that shapes are actually equal, lookup precedence, payload values of messages',
     assumptions=['messages are only sent through hub.broadcast'])
+props.also('C17',
+           're-identification (update_id) announced without a spurious message; membership memory read whichever way the flag is written')
 
 
 def _tgt(e):
